@@ -5,3 +5,4 @@ pub mod pairs;
 pub mod fnt;
 pub mod modes;
 pub mod cli;
+pub mod valtab;
